@@ -115,3 +115,31 @@ SPECS["C10"] = {
     "outside": ["inputs longer than the bound"],
     "assumptions": [],
 }
+
+SPECS["C03"] = {
+    "explanation": "The real match/clone/cloneHierarchy/Extend run on the real registered tree with every detector replaced by a symbolic verdict "
+                   "(one solver variable per node, the same on every call, asserting it receives exactly match's arguments); the result chain is compared "
+                   "with an independent first-match walk. Because the walk only learns those booleans, each path stands for all inputs of any length.",
+    "units": [
+        {"name": "walk", "pkg": "mimetype", "harnesses": ["HC03Walk"], "quick_args": fix(tier=0), "thorough_args": fix(tier=1), "quick_shards": 16, "thorough_shards": 48},
+    ],
+    "must_reach": ["end", "assert:walk:type", "assert:walk:no-child-matched", "assert:walk:ancestors-consulted-first", "assert:extend:parent"],
+    "bounds": {"quick": {"trees": "built-in tree (179 nodes); +1 Extend at 12 representative nodes; +2 Extends over {root,text,zip,json,ole,first extension}", "inputs": "unbounded (verdict vectors)"},
+               "thorough": {"trees": "built-in; +1 Extend at every one of the 179 nodes; +2 Extends as in quick"}},
+    "outside": ["more than two Extend calls", "detectors whose verdict differs between calls on the same input (excluded by C04)"],
+    "assumptions": ["detectors are pure functions of (raw, limit) (C04)"],
+}
+
+SPECS["C14"] = {
+    "explanation": "The real Extend (package level and method), Lookup and match on the real tree with symbolic detector verdicts: position of the "
+                   "extension among its siblings, Lookup of name and aliases, unchanged classification when every extension rejects, priority over "
+                   "older siblings, and immutability of earlier results, for every verdict vector (hence every input).",
+    "units": [
+        {"name": "extend", "pkg": "mimetype", "harnesses": ["HC14Extend"], "quick_args": fix(tier=0), "thorough_args": fix(tier=1), "quick_shards": 32, "thorough_shards": 64},
+    ],
+    "must_reach": ["end", "assert:lookup-alias", "assert:rejected-by-all-extensions-implies-unchanged", "assert:matching-extension-wins-over-older-siblings", "assert:earlier-result-unaffected"],
+    "bounds": {"quick": {"extends": "1 or 2 Extend calls at {root (package level and method), text, zip, json, ole, html, docx, geojson, the first extension, the first extension's parent}; 0..2 aliases"},
+               "thorough": {"extends": "as quick, plus 1 Extend at every one of the 179 nodes"}},
+    "outside": ["more than two Extend calls", "extension detectors that are not pure"],
+    "assumptions": ["sync.RWMutex is a no-op stub in the single-threaded executor (locking is C06)"],
+}
